@@ -258,7 +258,7 @@ func suites(tier string) []hlib.Suite {
 	if tier == "quick" {
 		return []hlib.Suite{verdictSuite(20), spotSuite(100), cliSuite(false), cliFileSuite(false)}
 	}
-	return []hlib.Suite{verdictSuite(40), spotSuite(300), cliSuite(true), cliFileSuite(true)}
+	return []hlib.Suite{verdictSuite(64), spotSuite(1000), cliSuite(true), cliFileSuite(true)}
 }
 
 const cliFileYAML = `scenario: s
